@@ -229,10 +229,9 @@ Proof.
   { unfold primary_epoch_reward_of_next_epoch in HR. apply bind_some in HR as (n1 & _ & HR).
     destruct (negb _).
     - unfold ee_primary_reward in HR. apply bind_some in HR as (p & _ & HR). apply add64_some in HR as [-> ?]. assumption.
-    - unfold primary_epoch_reward in HR. apply bind_some in HR as (h & _ & HR). apply shr64_some in HR as [-> _].
-      eapply N.le_lt_trans; [|exact Hinit].
-      apply N.div_le_upper_bound; [apply N.pow_nonzero; lia|].
-      pose proof (pow2_pos h). nia. }
+    - assert (HI : 0 < p_halving_interval P).
+      { unfold primary_epoch_reward in HR. apply bind_some in HR as (h & Hh & _). apply div64_some in Hh as [_ ?]. lia. }
+      destruct (primary_epoch_reward_total P n1 HI) as (r & Hr & Hle). rewrite Hr in HR. inversion HR; subst. lia. }
   split; [assumption|].
   pose proof (N.div_mod R len Hl) as Hdm. pose proof (N.mod_lt R len Hl) as Hlt.
   repeat split; try assumption; try reflexivity.
